@@ -38,7 +38,7 @@ func c10World(tp *Tape, env *Env) (*Plan, *Violation) {
 		// invocation of it shows up as one invocation too many)
 		hostHandlers = append(append([]HandlerSpec{}, hostHandlers...), HandlerSpec{Name: "stop", Shape: handlerShapes[tp.Int(0, len(handlerShapes)-1, "stopshape")]})
 	}
-	w.Host = HostSpec{Storer: []string{"rec", "mem"}[tp.Int(0, 1, "storer")], Probes: true, Seed: "s1", Handlers: hostHandlers, Scheds: drawScheds(tp, true)}
+	w.Host = HostSpec{Storer: []string{"rec", "mem"}[tp.Int(0, 1, "storer")], Probes: true, Seed: "s1", Handlers: hostHandlers, Scheds: drawScheds(tp, true), Reentrant: tp.Chance(15, "reentrant")}
 	m := newModel(prog, cfg.Handlers, w.Host.Scheds)
 	dc := &DriveCfg{MaxOps: 40, Vars: g.vars, WritePct: tp.Int(0, 15, "writepct")}
 	ops, choices := driveTape(tp, m, dc, env.St)
